@@ -225,6 +225,14 @@ def c16():
             sw.append(sweep_cmd(be, k, m, m, 2, len_classes(be, k)[5], _seed_of(chk, 500 + k * 9 + m), 0, k + m, 10**9, 1 | 2 | 8 | 16))
     for (k, m) in boundary_rs():           # k+m up to 32: the realloc bitmap's high bits, unaligned inputs
         sw.append(sweep_cmd(BE_RS, k, m, m, 2, len_classes(BE_RS, k)[4], _seed_of(chk, 600 + k), 0, min(m + 1, k + m), 25, 1 | 2 | 8 | 16 | 32))
+    # the fragments-needed query allocates scratch lists on its planner paths: ordered (R, X) with |R|+|X| <= hd of every
+    # XOR table (all, or a seeded sample of 2500), sampled longer ones, and RS (ledger before / after every call)
+    from .checks_codes import need_cmd
+    for ti, (k, m, hd) in enumerate(XOR_TABLES):
+        sw.append(need_cmd(BE_XOR, k, m, hd, hd, 2500 if not thorough else 10**9, _seed_of(chk, 800 + ti)))
+        sw.append("sweep_need_len %d %d %d %d %d %d %d %d" % (BE_XOR, k, m, hd, WORD[BE_XOR], hd + 1, 60, _seed_of(chk, 850 + ti)))
+    for (k, m) in [(4, 2), (10, 4), (3, 3), (20, 12)]:
+        sw.append(need_cmd(BE_RS, k, m, m, min(m + 1, 4), 1500, _seed_of(chk, 870 + k)))
     fs, es, rs_ = run_sweeps("asan", sw, "C16-sweep")
     vs = validate("TraceCodes", fs)
     _collect(chk, vs, ["C16", "fault"])
@@ -479,7 +487,15 @@ def c15():
     # (1) guarded mode: every caller input on read-only pages that end at a PROT_NONE page (plain build)
     cmds = roundtrip_cmds(chk, [BE_XOR, BE_RS, BE_ISAL_VAND, BE_ISAL_CAUCHY], thorough, mode=1 | 4 | 8 | 16)
     if not thorough:
-        cmds = cmds[chk.seed % 4::4]          # guard-page placement costs an mmap per fragment: a quarter of the space per quick run
+        # guard-page placement costs an mmap per fragment: in the quick tier every shape and length class runs, with a
+        # seeded sample of at most 12 erasure sets each (the thorough tier is exhaustive where C01 is)
+        capped = []
+        for c_ in cmds:
+            t_ = c_.split()
+            if t_[0] == "sweep_dec" and int(t_[11]) > 12:
+                t_[11] = "12"
+            capped.append(" ".join(t_))
+        cmds = capped
     i = 0
     for ti, (k, m, hd) in enumerate(XOR_TABLES[::4]):      # beyond tolerance as well (C02's space, sampled)
         i += 1
